@@ -14,7 +14,7 @@ def run(tier, seed):
     emb = [("dyadic", 0), ("ulp", 1)] if tier == "quick" else [("dyadic", 0), ("ulp", 1), ("decimal", 0)]
     run_pool(ctx, cfg, ["New", "Slice", "GetBin", "Take", "TakeUnsorted", "IndexRefused"], FULL_VIEW | {"ret"}, emb)
     cfgn = "MC_HistND_c11q" if tier == "quick" else "MC_HistND_c11t"
-    _res, g = ctx.model_check(cfgn, required_actions=["FromArrays", "GetItem"])
+    _res, g = ctx.model_check(cfgn, required_actions=["FromArrays", "GetItem", "GetCell"])
     for pe, we, sp in [("dyadic", "int", 0), ("ulp", "half", 1)]:
         ctx.replay(g, NDAdapter(POS[pe], WTS[we], spelling=sp), ND_VIEW, label=f"ND:{pe}/{we}/sp{sp}")
     ctx.assumptions = ["PySlice / index normalisation is transcribed in TLA+ (PhystRec.Sliced, HistND.Indexed); slices with an explicit step "
